@@ -309,7 +309,11 @@ def checks (w : World) : Label → Checks
      ("awaitBegin: a sync handler cannot await", !(w.inst i).kind.isSync)]
   | .pollYield i =>
     [("pollYield: unknown instance", i < w.ni),
-     ("pollYield: instance is not polling", isAwaiting (w.inst i).st && (w.act (.inst i)).isNone && (w.inst i).took.isNone)]
+     ("pollYield: instance is not polling", isAwaiting (w.inst i).st && (w.act (.inst i)).isNone && (w.inst i).took.isNone),
+     -- the polling loop suspends (`sleep(0)`) only after a pass over the buses that found every queue empty
+     ("pollYield: a queue holds an event (the polling pass takes it instead of suspending)",
+        -- (a bus removed by stop(clear=True) is no longer visited by later passes)
+        (List.range w.nb).all fun b => (w.bus b).removed || (w.bus b).queue.isEmpty)]
   | .awaitEnd i c =>
     [("awaitEnd: unknown instance", i < w.ni),
      ("awaitEnd: instance is not awaiting this event", (w.inst i).st == .awaiting c),
